@@ -1,7 +1,7 @@
 #!/bin/bash
 # usage: pkgtest.sh <pkg dir relative to /repo> ... ; lists failing tests that are in the stable baseline
 export GOFLAGS=-mod=mod GOPROXY=off
-cd /repo
+cd ${PKGTEST_REPO:-/repo}
 for p in "$@"; do
   go test -json -vet=off -count=1 -timeout 25m ./$p 2>/dev/null > /tmp/pkgtest.$$.json
   python3 - /tmp/pkgtest.$$.json <<'PY'
